@@ -230,6 +230,53 @@ def run(ctx):
                     {"kind": "doc", "source": str(src), "decl": decl})
         ctx.note("documented_decls_direct_ok", n_ok)
 
+    def phase_lexer():
+        # ---- tie of the character-level tokenizer model (driver ops `lex`, `parsestr`) to declast.tokenize / check_decl
+        drv = common.Driver("drv_decl")
+        items = dc.char_streams(common.rng("c17-chars"), 60000 if thorough else 12000)
+        lstat = {"strings": len(items), "by_stream": {}, "lex_disagreements": 0, "parsestr_disagreements": 0,
+                 "non_ascii": sum(1 for _, s in items if any(ord(c) > 127 for c in s)), "parsestr_outcomes": {}}
+        for k, _ in items:
+            lstat["by_stream"][k] = lstat["by_stream"].get(k, 0) + 1
+        real_l = [dc.real_lex(s) for _, s in items]
+        real_p = [dc.real_parse(s)[0] for _, s in items]
+        ctx.count(2 * len(items))
+        for s, line in zip(items, real_p):
+            if line.startswith("crash"):
+                ctx.fail(crash_key(line, s[1]), "check_decl(%r) raises %s (internal exception, not a diagnostic)" % (s[1], line[6:]),
+                         {"kind": "decl", "decl": s[1]})
+        for s, line in zip(items, real_l):
+            if line.startswith("crash"):
+                ctx.fail("tokenize-crash:" + line[6:], "tokenize(%r) raises %s" % (s[1], line[6:]), {"kind": "decl", "decl": s[1]})
+        if not (drv.available() and ok):
+            ctx.tie_broken("lexer-correspondence", "driver not built")
+            return
+        ml = drv.run(["lex " + common.enc(s) for _, s in items])
+        mp = drv.run(["parsestr " + common.enc(s) for _, s in items])
+        ldis, pdis = [], []
+        for (k, s), a, b in zip(items, real_l, ml):
+            if a != b:
+                ldis.append({"string": s, "stream": k, "impl": a[:200], "model": b[:200]})
+            else:
+                ctx.nontrivial("lex:" + a[:60])
+        for (k, s), a, b in zip(items, real_p, mp):
+            cls = dc.outcome_class(a)
+            lstat["parsestr_outcomes"][cls] = lstat["parsestr_outcomes"].get(cls, 0) + 1
+            if b.startswith("unmodelled"):
+                continue
+            if "=" in s and a.startswith("ok ") and b.startswith("ok "):
+                continue      # default values are printed by Python's str(int/float), which the string-level model has no access to
+            if "\n" in s and a.startswith("reject") and b.startswith("reject"):
+                continue      # the harness compares the last line of the diagnostic; a quoted newline splits it
+            if a != b:
+                pdis.append({"string": s, "stream": k, "impl": a[:200], "model": b[:200]})
+        lstat["lex_disagreements"], lstat["parsestr_disagreements"] = len(ldis), len(pdis)
+        ctx.note("lexer_tie", lstat)
+        if ldis:
+            ctx.tie_broken("lexer-correspondence", ldis[:5])
+        if pdis:
+            ctx.tie_broken("check_decl-on-strings-correspondence", pdis[:5])
+
     def phase_vattrs():
         # ---- tie of the Lean model of VerifyAttrs (driver op `vattrs`) on the attribute stream + boundary family
         from tools.props import c17_vattrs
@@ -249,6 +296,7 @@ def run(ctx):
     dc.guarded(ctx, "oracle-entry-point", phase_entry_point)
     dc.guarded(ctx, "oracle-documented", phase_documented)
     dc.guarded(ctx, "oracle-documented-direct", phase_documented_direct)
+    dc.guarded(ctx, "lexer-tie", phase_lexer)
     dc.guarded(ctx, "verifyAttrs-tie", phase_vattrs)
     dc.guarded(ctx, "oracle-attrs", phase_attrs)
     dc.guarded(ctx, "oracle-yaml", phase_yaml)
